@@ -242,6 +242,8 @@ class CaseEval:
                 return not same
         d = self.poly(b) - self.poly(a)     # b - a
         s = d.sign(FRESH)
+        if op in ("is", "isnot"):
+            op = "==" if op == "is" else "!="       # identity of numbers is judged as equality here; rule C08.5 reports the `is` itself
         if op == "==":
             if s == "0":
                 return True
@@ -372,7 +374,7 @@ class Game:
     def __init__(self, ctx, qual):
         self.ctx = ctx
         self.func = ctx.func(qual)
-        self.sx = SymX(ctx, self.func, inline_depth=3).run()
+        self.sx = SymX(ctx, self.func, inline_depth=3, unroll_literals=True).run()     # `for step in (width, -1, 1):` is three blocks
         ps = self.func.params
         self.names = {"moves": _pick(ps, "moves"), "loose": _pick(ps, "loose"), "length": _pick(ps, "length"),
                       "width": _pick(ps, "width"), "rewards": _pick(ps, "rewards")}
